@@ -7,6 +7,7 @@ import (
 	"sort"
 	"strings"
 	"sync"
+	"syscall"
 
 	"hpverif/internal/capfs"
 	"hpverif/internal/core"
@@ -32,7 +33,7 @@ type c08case struct {
 
 var c08bases = []string{"os", "mem", "mount", "mount-os"}
 
-var c08targets = []string{"f", "d", "e", "new", "nope/new", "f/x", ".", "d/x", "d/sub/deeper", "ln", "../f", "d/../f", "", "lnd/sub/deeper", "lnd/x"}
+var c08targets = []string{"f", "d", "e", "new", "nope/new", "f/x", ".", "d/x", "d/sub/deeper", "ln", "../f", "d/../f", "", "lnd/sub/deeper", "lnd/x", "sp", "spd"}
 
 // c08mkdirPerms: permission arguments for Mkdir/MkdirAll (variant 0 first), incl. ones without owner write/execute
 var c08mkdirPerms = []uint32{0o750, 0o555, 0o500, 0, 0o777}
@@ -79,6 +80,8 @@ func c08step(helper, target string, variant ...int) fsx.Step {
 		if target == "f" {
 			st.P, st.P2 = "d", "renamed"
 		}
+	case "Chown":
+		st.N, st.Off = 1234, 5678 // uid and gid differ (the process is root inside its jail)
 	case "Chmod":
 		st.Perm = 0o604
 		if len(variant) > 0 {
@@ -229,7 +232,11 @@ type c08world struct {
 }
 
 var c08items = []treeItem{{Path: "d", Dir: true, Perm: 0o755}, {Path: "d/x", Perm: 0o644, Data: "dx"}, {Path: "d/y", Dir: true, Perm: 0o700}, {Path: "d/y/z", Perm: 0o600, Data: "deep"},
-	{Path: "e", Dir: true, Perm: 0o755}, {Path: "f", Perm: 0o644, Data: "ffff"}}
+	{Path: "e", Dir: true, Perm: 0o755}, {Path: "f", Perm: 0o644, Data: "ffff"},
+	// entries that carry the special mode bits (set with Chmod after creation, see newC08World)
+	{Path: "sp", Perm: 0o755, Data: "special"}, {Path: "spd", Dir: true, Perm: 0o777}}
+
+var c08specialModes = map[string]hackpadfs.FileMode{"sp": hackpadfs.ModeSetuid | hackpadfs.ModeSetgid | 0o755, "spd": hackpadfs.ModeSticky | 0o777}
 
 func newC08World(env *core.Env, base string, off, fileOff uint32, state ...int) (*c08world, error) {
 	w := &c08world{cleanup: func() {}}
@@ -265,6 +272,9 @@ func newC08World(env *core.Env, base string, off, fileOff uint32, state ...int) 
 		}
 		if err := buildTree(w.inner, []treeItem{it}); err != nil {
 			return nil, err
+		}
+		if m, ok := c08specialModes[it.Path]; ok {
+			_ = hackpadfs.Chmod(w.inner, it.Path, m)
 		}
 	}
 	if len(state) > 0 && state[0] > 0 {
@@ -377,7 +387,31 @@ func c08apply(w *c08world, cs c08case, failAt int, partial ...bool) (fsx.Result,
 			snap, _ := fsx.Snapshot(w.inner, nil)
 			return r, snap, calls
 		}
+		if st.K == "Create" {
+			// the handle Create returns is open for reading and writing, whichever way the helper got it: after the call
+			// (fault plan off) two bytes are written through it and read back
+			var f hackpadfs.File
+			r, f = fsx.CreateKeep(w.fs, st.P)
+			calls := append([]string(nil), w.base.Calls...)
+			fired := w.base.Fired
+			w.base.Reset(-1)
+			if f != nil && r.OK() {
+				r.Data = fsx.HandleRoundTrip(f)
+				_ = f.Close()
+			}
+			w.base.Fired = fired
+			snap, _ := fsx.Snapshot(w.inner, nil)
+			return r, snap, calls
+		}
 		r = fsx.Exec(w.fs, st, &hs, nil)
+		if st.K == "Chown" {
+			// who owns the target afterwards is the effect of the call (read from the file system underneath, past the masks)
+			if info, err := hackpadfs.LstatOrStat(w.inner, st.P); err == nil {
+				if s, ok := info.Sys().(*syscall.Stat_t); ok {
+					r.Data += fmt.Sprintf(" |owner=%d:%d", s.Uid, s.Gid)
+				}
+			}
+		}
 	}
 	calls := append([]string(nil), w.base.Calls...)
 	hs.CloseAll()
